@@ -47,6 +47,23 @@ var checks = map[string]checkDef{
 
 var slotLocks []*os.File
 
+var scratchPersistent bool
+
+// dirSizeOver reports whether the files under dir add up to more than limit bytes.
+func dirSizeOver(dir string, limit int64) bool {
+	var total int64
+	filepath.Walk(dir, func(_ string, info os.FileInfo, err error) error {
+		if err == nil && !info.IsDir() {
+			total += info.Size()
+		}
+		if total > limit {
+			return filepath.SkipAll
+		}
+		return nil
+	})
+	return total > limit
+}
+
 var mcDir = func() string {
 	if d := os.Getenv("VERIF_MC"); d != "" {
 		return d
@@ -355,6 +372,21 @@ func main() {
 		cleanStale()
 		unlock := lockFor(id, tier)
 		runDir, bin := prepare(id, tier)
+		if progChecks[id] && tier != "thorough" {
+			// The quick program checks compile thousands of generated packages.
+			// On an unchanged tree they should hit a cache; on every changed
+			// tree they add new entries.  They get their own persistent build
+			// cache, wiped whenever it has grown past a bound, so that repeated
+			// runs against many different trees cannot fill the disk.
+			gc := filepath.Join(filepath.Dir(mcDir), ".cache", "gocache-prog")
+			if dirSizeOver(gc, 8<<30) {
+				exec.Command("chmod", "-R", "u+w", gc).Run()
+				os.RemoveAll(gc)
+			}
+			os.MkdirAll(gc, 0o755)
+			os.Setenv("VERIF_SCRATCH_GOCACHE", gc)
+			scratchPersistent = true
+		}
 		if progChecks[id] && tier == "thorough" {
 			// ~10^5 throw-away packages: keep them out of the user's build cache
 			gc := filepath.Join(mcDir, "work", strings.ToLower(id)+"-gocache")
@@ -365,7 +397,7 @@ func main() {
 		code := execCheck(runDir, bin, "-tier", tier)
 		os.RemoveAll(runDir)
 		os.RemoveAll(filepath.Join(mcDir, "work", fmt.Sprintf("alt-%d", os.Getpid())))
-		if gc := os.Getenv("VERIF_SCRATCH_GOCACHE"); gc != "" {
+		if gc := os.Getenv("VERIF_SCRATCH_GOCACHE"); gc != "" && !scratchPersistent {
 			exec.Command("chmod", "-R", "u+w", gc).Run()
 			os.RemoveAll(gc)
 		}
